@@ -90,7 +90,7 @@ func VerifC03Overlay() {
 	t := New(nil, nil, node.RootTypeState)
 	ref := &vRef{}
 	for i := 0; i < nb; i++ {
-		key, val := vOpKey("key", i, total), vVal1(symx.N("baseval", i))
+		key, val := vOpKey("key", i, total), vVal(symx.N("baseval", i), 1) // empty values included
 		symx.Assert(t.Insert(vCtx, key, val) == nil, "Insert failed")
 		ref.set(key, val)
 	}
